@@ -68,6 +68,8 @@ Record req := mkReq {
   r_continue_ok : bool;     (* answer of ContinueHandler for this request *)
   r_rd : rdprog;
   r_fin : finact;
+  r_max : Z;                (* RequestConfig.MaxRequestBodySize returned by Server.HeaderReceived for this request (0: none) *)
+  r_uri_ok : bool;          (* Request.parseURI succeeds (it runs before the body is read) *)
   r_pick : nat;             (* which pooled requestStream object requestStreamPool.Get hands out (beyond the pool: a new one) *)
   r_alt : option (Z * Z) }. (* Some (d, sid): the body bytes are such that at raw body offset d there is CRLF, a last-chunk
                                line and trailer like the real ones, and then a whole request-looking unit number sid:
@@ -85,6 +87,9 @@ Record cfg := mkCfg {
 (* ------------------------------------------------------------------------------------ *)
 (* the connection reader                                                                *)
 (* ------------------------------------------------------------------------------------ *)
+
+(* maxRequestBodySize of the iteration: the HeaderReceived override, else the server's limit *)
+Definition emax (c : cfg) (r : req) : Z := if 0 <? r_max r then r_max r else c_max c.
 
 (* advance n bytes from pos; None = the input ends first *)
 Definition adv (lim : option Z) (pos n : Z) : option Z :=
@@ -142,7 +147,7 @@ Definition readMultipart (lim : option Z) (cl : Z) (ok : bool) : nsres :=
 
 Definition continueReadBody (c : cfg) (r : req) : nsres :=
   let lim := r_lim r in
-  let max := c_max c in
+  let max := emax c r in
   match r_fr r with
   | FNone => NOk 0
   | FFixed n =>
@@ -229,8 +234,9 @@ Fixpoint cread (lim : option Z) (zl tl : Z) (chs : list chunk) (opened : bool) (
       else match adv lim pos zl with
            | None => (RcErr, mkSst false 0 0 [] false (adv_most lim pos zl) t false (Some RcErr))
            | Some p1 =>
-               (* ReadTrailer: io.EOF is not an error here *)
-               (RcEof, mkSst false 0 0 [] false (adv_most lim p1 tl) t true None)
+               (* ReadTrailer: io.EOF is not an error here; a trailer section that is cut off is only peeked at,
+                  its bytes stay in the reader *)
+               (RcEof, mkSst false 0 0 [] false (match adv lim p1 tl with Some p2 => p2 | None => p1 end) t true None)
            end
   | c :: chs' =>
       if negb opened && at_end lim pos then (RcEof, mkSst false 0 0 chs false pos t false (Some RcEof))   (* readHexInt: io.EOF *)
@@ -395,7 +401,7 @@ Definition continueReadBodyStream (c : cfg) (r : req) : sinit :=
       | Some ok => SPlain (readMultipart lim n ok)
       | None =>
           (* readBodyWithStreaming *)
-          let readN := Z.min (Z.min (c_max c) n) prefetchLimit in
+          let readN := Z.min (Z.min (emax c r) n) prefetchLimit in
           match adv lim 0 readN with
           | None => SPlain NErr
           | Some p => SStream (mkSst true n readN [] false p 0 false None)    (* also when n > max (ErrBodyTooLarge) *)
@@ -470,7 +476,7 @@ Definition run_reads (r : req) (d : dstream) : Z * rc * dstream :=
 
 (* io.CopyN(io.Discard, rs, max+1): true = connectionClose *)
 Definition drain (c : cfg) (r : req) (d : dstream) : bool * dstream :=
-  let '(x, d') := rread r d (Some (c_max c + 1)) in
+  let '(x, d') := rread r d (Some (emax c r + 1)) in
   (match x with RcEof => false | _ => true end, d').
 
 (* the iteration up to the handler call *)
@@ -486,7 +492,8 @@ Definition expect_verdict (c : cfg) (r : req) : option Z :=   (* Some status: th
   else None.
 
 Definition before_handler (c : cfg) (r : req) : pre :=
-  if c_getonly c && negb (r_getlike r) then PStop [EResp statusBadRequest true]       (* ErrGetOnly *)
+  if negb (r_uri_ok r) then PStop [EResp statusBadRequest true]                      (* parseURI error: writeErrorResponse, break; the body is not read *)
+  else if c_getonly c && negb (r_getlike r) then PStop [EResp statusBadRequest true]       (* ErrGetOnly *)
   else
   (* first body-reading attempt: skipped when MayContinue() *)
   let first := if r_expect r then BReady 0 None else read_body c r false in
